@@ -122,6 +122,14 @@ static int e_laqgs(const case_t *c, rng_t *rng, csc_t *G)
     real_t rowcnd = (real_t)cnds[rng_int(rng, 7)], colcnd = (real_t)cnds[rng_int(rng, 7)];
     real_t amax;
     switch (rng_int(rng, 5)) { case 0: amax = (real_t)(small * 0.5L); break; case 1: amax = (real_t)(large * 2.0L); break; case 2: amax = (real_t)small; break; default: amax = (real_t)1.0; }
+    if (cint(c, "rcfrom", 0) && m > 0 && n > 0) {
+        /* the realistic pipeline: scale factors, ratios and amax as ?gsequ computes them for this very matrix (rows and
+           columns spanning hundreds of binades give factors near the clipping bounds) */
+        real_t rc0 = 0, cc0 = 0, am0 = 0; int_t inf0 = -1;
+        GSEQU(&A, R, C, &rc0, &cc0, &am0, &inf0);
+        if (inf0 == 0) { rowcnd = rc0; colcnd = cc0; amax = am0; }
+        else { for (int_t i = 0; i < m; ++i) R[i] = (real_t)1; for (int_t j = 0; j < n; ++j) C[j] = (real_t)1; }
+    }
     equed_t equed = (equed_t)77;
     LAQGS(&A, R, C, rowcnd, colcnd, amax, &equed);
     jo_int("m", m); jo_int("n", n); jo_int("equed", (int)equed);
